@@ -28,11 +28,8 @@ def _bounds_env():
     return {
         'union': {'GaussianMixture': stubs.GaussianMixtureStub,
                   'multivariate_normal': stubs.MultivariateNormalStub,
-                  'minimize': stubs.minimize_stub,
-                  'h5py': stubs.h5py_proxy},
-        'basic': {'dpotrf': stubs.dpotrf_stub, 'dpotri': stubs.dpotri_stub},
-        'neural': {'MLPRegressor': stubs.MLPRegressorStub,
-                   'rankdata': stubs.rankdata_stub},
+                  'minimize': stubs.minimize_stub},
+        'neural': {'MLPRegressor': stubs.MLPRegressorStub},
     }
 
 
@@ -53,15 +50,14 @@ def real_env(key):
                           'os': realh5.os_mod}
     elif key == 'bounds':
         env.update(extra)
-        env['union'] = dict(extra['union'])
-        del env['union']['h5py']
     return env
 
 
 def real_package(key, block):
-    ck = (key, block)
+    bk = tuple(sorted(block.items())) if isinstance(block, dict) else block
+    ck = (key, bk)
     if ck not in _REAL:
-        _REAL[ck] = loader.load('nautilus_real_%s_%d' % (key, block),
+        _REAL[ck] = loader.load('nautilus_real_%s_%d' % (key, len(_REAL)),
                                 real_env(key), block=block)
     return _REAL[ck]
 
